@@ -528,6 +528,54 @@ def known_c12(meta, verdict, kv):
     return 'D12' if verdict == 'd12' and meta.get('tag') == 'svg-uri' else None
 
 
+def _hist_one(arg):
+    content, mkw, kind, kw = arg
+    import io
+    q = segno.make(content, **mkw)
+    out = io.BytesIO()
+    try:
+        q.save(out, kind=kind, **kw)
+        return ('ok', out.getvalue())
+    except Exception as ex:  # noqa
+        return ('exc', type(ex).__name__)
+
+
+def run_histories(ctx):
+    """the document of a route depends on the symbol and the options only — not on what was serialised before: colour options
+    in several spellings across kinds (ppm, svg, png, pam, xpm) in ONE process, each output compared with the same call made
+    alone in a fresh process"""
+    import multiprocessing
+    rnd, res = ctx.rnd, ctx.res
+    spell = {'black': ['#000', 'black', (0, 0, 0), '#000000'], 'white': ['#fff', 'white', (255, 255, 255), '#FFFFFF'],
+             'red': ['red', '#f00', (255, 0, 0), '#ff0000'], 'navy': ['navy', '#000080', (0, 0, 128)], 'blue': ['blue', (0, 0, 255), '#00f']}
+    calls = []
+    for rep in range(6 if ctx.tier == 'quick' else 40):
+        v = rnd.choice([1, 2, 7, 'M3', 10])
+        content, mkw = str(rnd.randint(1, 999)), dict(version=v, mask=rnd.randrange(4))
+        base = dict(dark='black', light='white')
+        for k in rnd.sample(['finder_dark', 'data_dark', 'data_light', 'alignment_dark', 'timing_dark', 'quiet_zone', 'separator', 'version_dark'], rnd.randint(1, 3)):
+            base[k] = rnd.choice(['red', 'navy', 'blue', 'black', 'white'])
+        kinds = ['ppm', 'svg', 'png', 'svg', 'ppm', 'png']
+        rnd.shuffle(kinds)
+        for kind in kinds:
+            kw = {k: rnd.choice(spell[c]) for k, c in base.items()}
+            calls.append((content, mkw, kind, kw))
+        # alpha 1 (integer) and alpha 1.0 compare equal as Python values and mean different colours
+        for col in ((0, 0, 255, 1), (0, 0, 255, 1.0), (0, 0, 255, 1)):
+            calls.append((content, mkw, 'png', dict(dark=col, light=None)))
+    here = [_hist_one(c) for c in calls]
+    with multiprocessing.get_context('fork').Pool(8, maxtasksperchild=1) as pool:
+        alone = pool.map(_hist_one, calls, chunksize=1)
+    for c, a, b in zip(calls, here, alone):
+        res.evaluations += 1
+        if a != b:
+            content, mkw, kind, kw = c
+            res.violations.append(dict(property_field='c12', verdict='document-depends-on-earlier-calls:' + (a[0] if a[0] != 'ok' else 'differs-from-the-same-call-in-a-fresh-process'),
+                                       call=f'segno.make({content!r}, **{mkw!r}).save(out, kind={kind!r}, **{kw!r})  [after {calls.index(c)} other calls]',
+                                       replay=dict(history=[repr(x) for x in calls[:calls.index(c) + 1]][-12:]), judge={}, known_id=None))
+    res.count('history-block:calls', len(calls))
+
+
 def run_C12(tier, rnd, st, res):
     ctx = Ctx(tier, rnd, st, res)
     try:
@@ -546,6 +594,7 @@ def run_C12(tier, rnd, st, res):
             run_terminal(ctx, sym)
         run_sequences(ctx, tier)
         run_refusals(ctx)
+        run_histories(ctx)
         # ------------------------------------------------------------------ judge
         if st.judge_ok:
             outs = run_lines_parallel(JUDGE, ctx.judge_lines, jobs=16)
